@@ -65,6 +65,16 @@ class TRefS(Sort):
         return "Ref"
 
 
+class TFuncS(Sort):
+    "a closure stored in a heap field: index into the executor's closure table (0 = none)"
+
+    def z3(self):
+        return z3.IntSort()
+
+    def name(self):
+        return "Func"
+
+
 class TTypeS(Sort):
     "a class object (class id)"
 
@@ -294,6 +304,7 @@ Bool = TBoolS()
 Str = TStrS()
 Ref = TRefS()
 Type = TTypeS()
+Func = TFuncS()
 
 
 def RefOf(cls):
@@ -472,6 +483,14 @@ class VFunc(Val):
         return "VFunc(%s,%s)" % (self.kind, self.qn or self.target)
 
 
+class VFuncRef(Val):
+    "closure id read back from the heap"
+    sort = Func
+
+    def __init__(self, t):
+        self.t = t
+
+
 class VModule(Val):
     def __init__(self, qn):
         self.qn = qn
@@ -502,6 +521,8 @@ def mk_val(t, sort: Sort):
         return VRef(t, sort.cls)
     if isinstance(sort, TTypeS):
         return VType(t)
+    if isinstance(sort, TFuncS):
+        return VFuncRef(t)
     if isinstance(sort, TAbs):
         return VAbs(t, sort)
     if isinstance(sort, TList):
